@@ -156,7 +156,7 @@ func interpret(spec DecideSpec, val Val, pos func(token.Pos) string) (string, []
 			if u, isLoad := v.(*ssa.UnOp); isLoad && u.Op == token.MUL {
 				switch u.X.(type) {
 				case *ssa.FieldAddr, *ssa.Alloc:
-					if sv, ok := mem[Canon(u.X)]; ok {
+					if sv, ok := mem[cellName(u.X)]; ok {
 						v = sv
 						continue
 					}
@@ -234,7 +234,7 @@ func interpret(spec DecideSpec, val Val, pos func(token.Pos) string) (string, []
 			case *ssa.Store:
 				switch t.Addr.(type) {
 				case *ssa.FieldAddr, *ssa.Alloc:
-					mem[Canon(t.Addr)] = resolve(t.Val)
+					mem[cellName(t.Addr)] = resolve(t.Val)
 				}
 			case *ssa.Return:
 				ret := ""
